@@ -33,15 +33,15 @@ fn distinct<const N: usize>(a: &[u8; N]) -> bool {
 }
 
 fn state<const N: usize>() -> ([u8; N], OrderedSet<u8>) {
-  let a: [u8; N] = core::array::from_fn(|_| any());
-  assume(distinct(&a));
-  let set = match OrderedSet::try_from(a.to_vec()) {
-    Ok(s) => s,
-    Err(e) => {
-      core::mem::forget(e);
-      panic!("duplicate-free vector rejected")
-    }
-  };
+  // an arbitrary valid state: N appends that all succeed (= pairwise distinct keys, the representation invariant)
+  let mut a = [0u8; N];
+  let mut set: OrderedSet<u8> = OrderedSet::new();
+  let mut i = 0;
+  while i < N {
+    a[i] = any();
+    assume(set.append(a[i]));
+    i += 1;
+  }
   (a, set)
 }
 
